@@ -220,6 +220,12 @@ def find(node, pred):
     return [n for n in walk(node) if pred(n)]
 
 
+def is_public(item):
+    """declared `pub` and reachable from outside the crate (a `pub fn` of a private module, or of a type that is never
+    exported, is not)"""
+    return item.get('vis') == 'pub' and item.get('reachable') is not False
+
+
 def callee_path(node):
     """Resolved callee def-path of a Call/MethodCall node (impl item if resolved), else None."""
     k = node.get('k')
